@@ -140,6 +140,27 @@ CLAIMS = {
               "correspondence of fteik2d/3d on heterogeneous, unequal-spacing, off-grid cases; the running code is checked "
               "for both scalings (solve, vzero, gradient, evaluation, free-step rays; powers of two bit-for-bit up to 1e-12 "
               "under JIT, other factors 1e-9) in interpreter and JIT mode.")),
+    "C10": dict(
+        category="proof", design_ref="DESIGN.md §8 C10",
+        technique="Lean 4 theorems about the model of the ray loop (termination of the free-step loop by a decreasing budget measure, endpoints/buffer bounds by a loop invariant, outcome classes) + bit-level kernel correspondence + contract oracle on the running code",
+        text=("Proved for every scalar type: without honor_grid the while loop terminates for every gradient field (each "
+              "iteration stores one vertex, the budget test bounds the stored rows, so the model's fuel max_step+1 is never "
+              "exhausted); a returned polyline starts exactly at the source, ends exactly at the end point and has between 2 and "
+              "max_step+1 vertices; failures are 'end point out of bound' iff outside the hull, else the budget; clamped "
+              "coordinates lie in the hull (reals). The model is tied by bit-level correspondence of _ray2d/_ray3d vertex by "
+              "vertex. Numerical clauses (step length, 1.5-cell tube, no RuntimeError for homogeneous equal spacing, monotone "
+              "time) are checked on the running code in interpreter and JIT mode over media, source/end classes, step sizes "
+              "and budgets.")),
+    "C15": dict(
+        category="proof", design_ref="DESIGN.md §8 C15",
+        technique="Lean 4 theorems about the model of the honour-grid loop (endpoints, stored-vertex bound, shrink lands on the face) + bit-level kernel correspondence + watchdog/contract oracle on the running code",
+        text=("Proved: a returned grid-honouring polyline starts exactly at the source, ends exactly at the end point and "
+              "stores at most max_step rows; failures are the hull test or the budget; in exact arithmetic the shrunk step "
+              "ends exactly on the face that defined the shrink factor (so interior vertices lie on grid lines) and that factor "
+              "lies in [0,1); non-crossing iterations store nothing. Partial: termination is not provable without an "
+              "assumption on the gradient field because non-crossing iterations are not counted by the budget - the model "
+              "runs with fuel and the real code under a watchdog. Tube and 'always a ray for homogeneous equal spacing' are "
+              "checked by the oracle. Known finding: rays get stuck on a hull face when the gradient points outward.")),
 }
 
 WIP = "check not registered yet in this revision (model/theorems under construction); see DESIGN.md §8"
